@@ -331,9 +331,18 @@ def r_C15h(root):
     import ast
     from sa import sem
     M = "textx/model.py"; out = []; inst = 0
-    fn = find_i(root, M, "_abandon_user_objects", depth=0); fi = sem.info(fn)
-    for nm in ("_restore_user_attr_methods", "_release_user_obj_attrs"):
+    fn = find_i(root, M, "_abandon_user_objects"); fi = sem.info(fn)
+    t_ = load(root, M)
+    def sites(nm):
+        """call sites in fn that execute nm(): direct calls, or calls of a uniquely named function/method of the module whose body calls nm() unconditionally (wrapper extracted by a refactoring)"""
         cs = [c for c in calls(fn, own=True) if callee_name(c) == nm]
+        if cs: return cs
+        for c in calls(fn, own=True):
+            defs = [d for d in ast.walk(t_) if isinstance(d, ast.FunctionDef) and d.name == callee_name(c)]
+            if len(defs) == 1 and any(isinstance(s_, ast.Expr) and isinstance(s_.value, ast.Call) and callee_name(s_.value) == nm for s_ in defs[0].body): cs.append(c)
+        return cs
+    for nm in ("_restore_user_attr_methods", "_release_user_obj_attrs"):
+        cs = sites(nm)
         inst += 1
         if not cs:
             ob("C15", "C15.h", M, "_abandon_user_objects", nm + " called", False)
